@@ -65,7 +65,8 @@ Theorem C08_index_unique : forall l, NoDup (some_ids (unique_refs l)).
 Proof. exact unique_refs_nodup. Qed.
 Print Assumptions C08_index_unique.
 
-(* the background task: origin call, then a fresh read of the entry and of the index *)
+(* the background task: origin call, then a fresh read of the entry and of the index; a 304 is used only
+   when the entry read still carries the validators that were sent *)
 Theorem C08_background_uses_current_index : forall q stored key f cc,
   background_revalidate q stored key f cc =
   round_trip_timed q (fun rep start stop =>
@@ -76,6 +77,9 @@ Theorem C08_background_uses_current_index : forall q stored key f cc,
           match own with
           | None => Ret tt
           | Some own_entry =>
+              if match rep with RResp r => p_status r =? 304 | RErr => false end &&
+                 negb (sent_validators_of (q_hdr q) (e_hdr own_entry))
+              then Ret tt else
               get_refs_clean key (fun ans =>
                 let refs := match ans with Some l => l | None => [] end in
                 _ <- handle_validation_response
